@@ -49,3 +49,148 @@ vk_harness!(c12_run_is_clear_then_jump, {
     core::mem::forget(l);
 });
 
+
+// ---------------------------------------------------------------------------------------------------------------
+// C09: the DATA pointer and the data addresses that symbols carry
+
+fn link_with_data(vals: [i16; 3]) -> Link {
+    let mut l = Link::default();
+    let mut i = 0;
+    while i < 3 {
+        l.data.push(Val::Integer(vals[i])).unwrap();
+        i += 1;
+    }
+    l
+}
+
+//@ prop: C09
+//@ tier: quick
+//@ unwind: 10
+//@ encodes: Link::read_data; Link::restore_data
+//@ bounds: data segment of 3 Integer constants with symbolic values; pointer anywhere in 0..=3; RESTORE target anywhere in 0..=3 (3 = "no constant at or after that line")
+vk_harness!(c09_read_and_restore_step, {
+    let vals = [vk::any_i16(), vk::any_i16(), vk::any_i16()];
+    let mut l = link_with_data(vals);
+    let pos = vk::any_below(4) as usize;
+    l.data_pos = pos;
+    // READ delivers the constant under the pointer and advances, or OUT OF DATA past the last one
+    let got = l.read_data();
+    if pos < 3 {
+        match got {
+            Ok(Val::Integer(v)) => vk_check!(v == vals[pos] && l.data_pos == pos + 1, "C09: READ delivers the next DATA constant in source order and advances"),
+            _ => vk_check!(false, "C09: READ failed although a constant was left"),
+        }
+    } else {
+        match got {
+            Err(e) => vk_check!(crate::lang::vh_error::code_of(&e) == 4 && l.data_pos == pos, "C09: reading past the last constant is OUT OF DATA"),
+            Ok(_) => vk_check!(false, "C09: READ past the last constant delivered a value"),
+        }
+    }
+    // RESTORE to any data address of the program, including the address just past the last constant
+    let target = vk::any_below(4) as usize;
+    l.restore_data(target);
+    let again = l.read_data();
+    if target < 3 {
+        match again {
+            Ok(Val::Integer(v)) => vk_check!(v == vals[target], "C09: after RESTORE the next READ delivers the first constant at or after the target"),
+            _ => vk_check!(false, "C09: READ after RESTORE failed although constants follow the target"),
+        }
+    } else {
+        vk_check!(again.is_err(), "C09: RESTORE to a line with no constant at or after it must leave nothing to READ (OUT OF DATA)");
+    }
+    vk_cover!(pos < 3 && target == 3, "reach: restore past the last constant with unread constants left");
+    vk_cover!(pos == 3, "reach: out of data");
+    core::mem::forget(l);
+});
+
+/// A line as Program::codegen lays it out at link level: its line symbol first, then the statement fragments.
+fn push_line(prog: &mut Link, number: u16, ndata: usize, restore_to: Option<u16>) {
+    prog.push_symbol(number as Symbol);
+    let mut frag = Link::default();
+    let mut i = 0;
+    while i < ndata {
+        frag.data.push(Val::Integer(number as i16)).unwrap();
+        i += 1;
+    }
+    if let Some(t) = restore_to {
+        frag.push_restore(1..2, Some(t)).unwrap();
+    }
+    prog.append(frag).unwrap();
+}
+
+//@ prop: C09 C20
+//@ tier: quick
+//@ unwind: 10
+//@ encodes: Link::append (data offsets of symbols); Link::push_symbol; Link::push_restore; Link::link (Restore resolution)
+//@ bounds: 3 program lines 10,20,30 with 0..=1 DATA constants each (symbolic counts); one RESTORE n on line 20 with n any of the three lines
+vk_harness!(c09_restore_n_resolves_to_first_constant_at_or_after, {
+    let (d1, d2, d3) = (vk::any_below(2) as usize, vk::any_below(2) as usize, vk::any_below(2) as usize);
+    let which = vk::any_below(3);
+    let target: u16 = if which == 0 { 10 } else if which == 1 { 20 } else { 30 };
+    let mut prog = Link::default();
+    push_line(&mut prog, 10, d1, None);
+    push_line(&mut prog, 20, d2, Some(target));
+    push_line(&mut prog, 30, d3, None);
+    let errors = prog.link();
+    vk_check!(errors.is_empty(), "C09: a RESTORE to an existing line links cleanly");
+    let want = if which == 0 { 0 } else if which == 1 { d1 } else { d1 + d2 };
+    match prog.ops.get(0) {
+        Some(Opcode::Restore(a)) => vk_check!(*a == want, "C09: RESTORE n must point at the first constant found at or after line n"),
+        _ => vk_check!(false, "C09: the RESTORE instruction was lost"),
+    }
+    vk_check!(prog.data.len() == d1 + d2 + d3, "C09: every DATA constant is in the data segment, in source order");
+    vk_cover!(which == 2 && d3 == 0, "reach: restore to a line after the last constant");
+    core::mem::forget(prog);
+    core::mem::forget(errors);
+});
+
+// ---------------------------------------------------------------------------------------------------------------
+// C01 / C20: symbol relocation when statement fragments are appended, and resolution of branches by line number
+
+//@ prop: C01 C20
+//@ tier: quick
+//@ unwind: 10
+//@ encodes: Link::append (relocation of local symbols and of unresolved references); Link::next_symbol; Link::push_jump; Link::push_ifnot; Link::push_goto; Link::push_symbol; Link::link
+//@ bounds: parent with 0..=2 local labels already allocated and 0..=1 instructions; appended fragment = [GOTO <line L>, IFNOT <own local label>, label:] with L any line number 0..=65529 (0 included); line L defined after the fragment
+vk_harness!(c20_append_relocates_local_labels_only, {
+    let mut parent = Link::default();
+    let k = vk::any_below(3);
+    let mut i = 0;
+    while i < k {
+        // labels allocated by earlier statements of the same compile (IF, FOR, GOSUB ... each take one)
+        let s = parent.next_symbol();
+        parent.push_symbol(s);
+        i += 1;
+    }
+    let pre = vk::any_below(2) as usize;
+    if pre == 1 {
+        parent.push(Opcode::End).unwrap();
+    }
+    let line = vk::any_u16();
+    vk::assume(line <= 65529);
+    // the fragment of one statement: a branch to a line number, and a branch to a label local to the fragment
+    let mut frag = Link::default();
+    frag.push_goto(1..2, Some(line)).unwrap();
+    let local = frag.next_symbol();
+    frag.push_ifnot(3..4, local).unwrap();
+    frag.push_symbol(local); // label at fragment address 2
+    parent.append(frag).unwrap();
+    // the target line is compiled later, after one more instruction
+    parent.push(Opcode::End).unwrap();
+    parent.push_symbol(line as Symbol);
+    let line_addr = parent.ops.len();
+    let errors = parent.link();
+    vk_check!(errors.is_empty(), "C20: all references resolve");
+    match parent.ops.get(pre) {
+        Some(Opcode::Jump(a)) => vk_check!(*a == line_addr, "C20: a branch to line n resolves to line n's code wherever the fragment is placed (line 0 included)"),
+        _ => vk_check!(false, "C20: the GOTO instruction was lost"),
+    }
+    match parent.ops.get(pre + 1) {
+        Some(Opcode::IfNot(a)) => vk_check!(*a == pre + 2, "C01: a statement-local label moves with its fragment"),
+        _ => vk_check!(false, "C01: the IFNOT instruction was lost"),
+    }
+    vk_cover!(line == 0 && k > 0, "reach: branch to line 0 after other labels were allocated");
+    vk_cover!(k == 2 && pre == 1, "reach: offset parent");
+    core::mem::forget(parent);
+    core::mem::forget(errors);
+});
